@@ -710,6 +710,9 @@ def read_vis_stmnt(line: str) -> tuple[Literal["vis"], VisInfo] | None:
     if vis_match.group(1).lower() == "private":
         vis_type = 1
     trailing_line = line[vis_match.end(0) :].split("!")[0]
+    # A generic spec (`operator(.dot.)`, `assignment(=)`, `write(formatted)`)
+    # names no entity: `dot` may well be a private procedure of the module
+    trailing_line = FRegex.VIS_GEN_SPEC.sub(" ", trailing_line)
     mod_words = FRegex.WORD.findall(trailing_line)
     return "vis", VisInfo(vis_type, mod_words)
 
